@@ -3,7 +3,9 @@
 //! (`F<TAB>property<TAB>json`).
 mod common;
 mod strings;
+mod ser_gen;
 mod ser_oracle;
+mod ser_ws;
 mod suite_entity;
 mod suite_ser;
 mod suite_tree;
